@@ -3,6 +3,7 @@ package checks
 import (
 	"encoding/json"
 	"fmt"
+	"math"
 	"reflect"
 	"regexp"
 	"sort"
@@ -109,6 +110,9 @@ func (w *c02Walker) object(sv reflect.Value, j *jsonref.Node, path string) {
 		if m == nil && f.Kind == universe.KNLV {
 			m, isMap = j.Get(f.Term+"Map"), true
 		}
+		if m == nil && f.Kind == universe.KFloat && (math.IsNaN(fv.Float()) || math.IsInf(fv.Float(), 0)) {
+			continue // JSON has no number for NaN and the infinities: saying nothing is the only valid output
+		}
 		if m == nil {
 			w.fail(owner, f.Term, "populated-field-missing", "%s: %s is set but not written under its term", path, f.Term)
 			continue
@@ -184,8 +188,24 @@ func (w *c02Walker) value(owner string, f *universe.Field, fv reflect.Value, m *
 			for _, d := range m.Duplicates() {
 				w.fail(owner, f.Term, "duplicate-language-tag", "%s: language tag %q occurs more than once", path, d)
 			}
+			// a JSON object cannot repeat a member: of several values with the same tag (untagged, "" and "und" are one tag)
+			// the first - the one Get returns - is the one to write
+			var first ap.NaturalLanguageValues
+			seenTag := map[string]bool{}
+			for _, e := range n {
+				tag := string(e.Ref)
+				if tag == "" || tag == "-" {
+					tag = "und"
+				}
+				if len(e.Value) == 0 || seenTag[tag] {
+					continue
+				}
+				seenTag[tag] = true
+				first = append(first, e)
+			}
+			n = first
 			if len(m.Names) != len(n) {
-				w.fail(owner, f.Term, "lang-entries", "%s: %d language values held, %d written", path, len(n), len(m.Names))
+				w.fail(owner, f.Term, "lang-entries", "%s: %d language values with distinct tags held, %d written", path, len(n), len(m.Names))
 				return
 			}
 			for _, e := range n {
@@ -494,7 +514,13 @@ func c02Run(c *engine.Ctx) {
 			}
 		}
 	}
-	places := []string{"top", "embedded", "in-list"}
+	// every Unicode format / bidi control character and the non-characters, singly (an escaper that special-cases a block of
+	// them must get each one right), at top level only
+	for _, r := range []rune{0x061c, 0x200b, 0x200c, 0x200d, 0x200e, 0x200f, 0x202a, 0x202b, 0x202c, 0x202d, 0x202e, 0x2060, 0x2066, 0x2067, 0x2068, 0x2069,
+		0x00ad, 0x034f, 0x180e, 0xfffe, 0xffff, 0xfdd0, 0x1fffe, 0x10ffff, 0xe000, 0x0080, 0x009f, 0x0130, 0x212a, 0x017f} {
+		hostile = append(hostile, hs{fmt.Sprintf("U+%04X", r), "x" + string(r) + "y"})
+	}
+	places := []string{"top", "embedded", "in-list", "deep-list"}
 	for i := range universe.Structs {
 		s := &universe.Structs[i]
 		for _, st := range c02Setters(s) {
@@ -502,6 +528,12 @@ func c02Run(c *engine.Ctx) {
 				for _, place := range places {
 					s, st, h, place := s, st, h, place
 					if place != "top" && h.class == "pair" && c.Quick() {
+						continue
+					}
+					if place == "deep-list" && (h.class == "pair" || strings.HasPrefix(h.class, "U+")) {
+						continue
+					}
+					if place != "top" && strings.HasPrefix(h.class, "U+") {
 						continue
 					}
 					build := func() any {
@@ -519,6 +551,19 @@ func c02Run(c *engine.Ctx) {
 							return &ap.Object{ID: "https://example.com/host", Type: ap.NoteType, Attachment: p.Interface().(ap.Item)}
 						case "in-list":
 							return &ap.Activity{ID: "https://example.com/host", Type: ap.CreateType, Tag: ap.ItemCollection{ap.IRI("https://example.com/t"), p.Interface().(ap.Item)}}
+						case "deep-list":
+							// member of a list nine levels below the root
+							var inner ap.Item = &ap.Object{ID: "https://example.com/d9", Type: ap.NoteType, Tag: ap.ItemCollection{ap.IRI("https://example.com/t"), p.Interface().(ap.Item)}}
+							for d := 8; d >= 1; d-- {
+								o := &ap.Object{ID: ap.IRI(fmt.Sprintf("https://example.com/d%d", d)), Type: ap.NoteType}
+								if d%2 == 0 {
+									o.InReplyTo = inner
+								} else {
+									o.Attachment = ap.ItemCollection{inner}
+								}
+								inner = o
+							}
+							return inner
 						}
 						return p.Interface()
 					}
@@ -526,6 +571,63 @@ func c02Run(c *engine.Ctx) {
 				}
 			}
 		}
+	}
+	// (ii-b) numbers and durations at the edges of their types, in every numeric / duration property
+	for i := range universe.Structs {
+		s := &universe.Structs[i]
+		for _, f := range s.Fields {
+			var vals []reflect.Value
+			switch f.Kind {
+			case universe.KFloat:
+				for _, x := range []float64{math.NaN(), math.Inf(1), math.Inf(-1), math.Copysign(0, -1), math.MaxFloat64, math.SmallestNonzeroFloat64, -1e-300, 1e21, 123456789.123456789} {
+					vals = append(vals, reflect.ValueOf(x))
+				}
+			case universe.KDuration:
+				for _, x := range []time.Duration{500 * time.Millisecond, time.Nanosecond, -250 * time.Millisecond, 1500 * time.Millisecond, 24 * time.Hour, 36*time.Hour + 1500*time.Millisecond, -time.Second, 1<<63 - 1, -(1<<63 - 1), 366 * 24 * time.Hour} {
+					vals = append(vals, reflect.ValueOf(x))
+				}
+			case universe.KInt:
+				for _, x := range []int64{-1 << 63, 1<<63 - 1, -1} {
+					vals = append(vals, reflect.ValueOf(x))
+				}
+			case universe.KUint:
+				for _, x := range []uint{1<<63 - 1, 1 << 32} {
+					vals = append(vals, reflect.ValueOf(x))
+				}
+			default:
+				continue
+			}
+			for _, v := range vals {
+				s, f, v := s, f, v
+				c02Check(c, "number-edges", f.Term, func() string { return fmt.Sprintf("*%s with %s = %v", s.Name, f.Term, v.Interface()) }, func() any {
+					p := reflect.New(s.Type)
+					p.Elem().FieldByName("ID").SetString("https://example.com/1")
+					p.Elem().FieldByName("Type").SetString(s.SpecificName())
+					p.Elem().Field(f.Index).Set(v.Convert(f.Type))
+					return p.Interface()
+				}, both, true)
+			}
+		}
+	}
+	// (iii-a) language lists in which a tag occurs more than once (a JSON object must not repeat a member)
+	for k, tags := range [][]string{{"en", "en"}, {"-", ""}, {"-", "und"}, {"en", "fr", "en"}, {"", "en", "-"}, {"und", "und", "fr"}, {"en", "en", "en"}} {
+		k, tags := k, tags
+		c02Check(c, "repeated-tag", fmt.Sprint(tags), func() string {
+			return fmt.Sprintf("*Object whose name, summary and content hold the tags %q (list #%d)", tags, k)
+		}, func() any {
+			var n ap.NaturalLanguageValues
+			for i, tg := range tags {
+				n = append(n, ap.LangRefValue{Ref: ap.LangRef(tg), Value: ap.Content(fmt.Sprintf("text %d", i))})
+			}
+			return &ap.Object{ID: "https://example.com/1", Type: ap.NoteType, Name: n, Summary: n, Content: n, Source: ap.Source{Content: n, MediaType: "text/plain"}}
+		}, both, true)
+		c02Check(c, "repeated-tag", fmt.Sprint(tags), func() string { return fmt.Sprintf("NaturalLanguageValues with the tags %q", tags) }, func() any {
+			var n ap.NaturalLanguageValues
+			for i, tg := range tags {
+				n = append(n, ap.LangRefValue{Ref: ap.LangRef(tg), Value: ap.Content(fmt.Sprintf("text %d", i))})
+			}
+			return n
+		}, []string{"method"}, true)
 	}
 	// (iii) language lists with an untagged entry among several
 	for _, untaggedAt := range []int{0, 1, 2} {
